@@ -337,6 +337,7 @@ class ConnInfo:
         self.prcv = 0       # bytes the peer actually received
         self.sqrd = 0
         self.sqrd_app = 0
+        self.sqrd_ev = []   # (seq, t, n): squid's successful reads on this connection
         self.p2s_dropped = 0   # bytes in flight towards squid when an RST ended the connection
         self.werr = False
         self.events = []    # (seq, t, kind, rest)
@@ -399,6 +400,7 @@ class Hist:
                 elif kind == 'SQRD':
                     if rest[1].isdigit():
                         c.sqrd += int(rest[1])
+                        c.sqrd_ev.append((seq, t, int(rest[1])))
                         if not c.werr:
                             c.sqrd_app += int(rest[1])   # reads after a failed write are comm_close() draining the socket, not the application
                     else:
@@ -445,6 +447,14 @@ class Hist:
         """bytes of to_squid(c) that reached squid's socket (the rest was in flight when an RST ended the connection)"""
         b = self.to_squid(c)
         return b[:len(b) - c.p2s_dropped] if c.p2s_dropped else b
+    def squid_read_seq(self, c, nbytes):
+        """(seq, t) of the read() with which squid had read the first nbytes bytes of connection c, or None if it never did"""
+        acc = 0
+        for (seq, t, n) in c.sqrd_ev:
+            acc += n
+            if acc >= nbytes:
+                return (seq, t)
+        return None
     def from_squid(self, c, include_lost=True):
         return b''.join(self.bin[o:o + n] for (_, _, o, n, lost) in c.sqwr if include_lost or not lost)
     def peer_received(self, c):
